@@ -49,7 +49,7 @@ def run_history(ctx, hseed, nsteps):
                 ctx.evaluations += 1
                 got = lookup_query_metadata(e.s, k)
                 exp = model[e.id].get(k)
-                if got != exp:  # equality of values (1 / True / 1.0 compare equal, as the library's own "unchanged value" test does)
+                if got != exp or type(got) is not type(exp) or repr(got) != repr(exp):  # the value most recently set, not one that merely compares equal (1 / True / 1.0, 0.0 / -0.0)
                     why = "earlier-key-lost" if exp is not None and got is None else ("sees-unset-key" if exp is None else "wrong-value")
                     ctx.violation(
                         f"lookup:{why}",
